@@ -4,7 +4,7 @@ from ..runner import Harness
 from ..pse import truth
 from . import common as cm
 
-PATHS = ["clips/a b.txt", "dü/x&y <z>.mov", "q'uo\"te.txt", "Cafe\u0301 (NFD)/plain.bin"]
+PATHS = ["Cafe\u0301 (NFD)/a b.txt", "dü/x&y <z>.mov", "q'uo\"te.txt", "plain.bin"]
 DIRS = ["clips", "dü/sub dir&"]
 TEXTS = ["Ünïcode & <tags> \"quoted\" 'single'", "plain", "a  b   c", "日本語テキスト"]
 ACTIONS = ["original", "verified", "failed"]
